@@ -3,28 +3,28 @@ CONSTANTS
   AckMode = "shaped"
   ThrMode = "fixed"
   EmptyMode = "fixed"
-  CfgSet <- CloseCfgs
+  CfgSet <- CancelCfgs
   SameCfg = TRUE
   Openers = {"A"}
   MaxOpens = 1
-  Ids = {1}
+  Ids = {1, 2}
   Hosts = {"h0"}
-  MaxWrites = 2
+  MaxWrites = 0
   Lens = {1}
   ReadMax = {4}
-  Closers = {"A"}
+  Closers = {}
   MuxDroppers = {}
-  Cancellers = {}
+  Cancellers = {"A"}
   DgSenders = {}
   MaxDgrams = 0
-  Binders = {}
-  MaxBinds = 0
+  Binders = {"A"}
+  MaxBinds = 1
   Faults = {}
   AdvMsgs = {}
   MaxAdv = 0
-  Bridgers = {"A", "B"}
+  Bridgers = {}
   MaxHandles = 1
-  MaxCtr = 1
+  MaxCtr = 2
 VIEW View
 CONSTRAINT Bound
 INVARIANTS NoViolation TypeOK AckSound QueueBound InitialCredit ExactlyOne TargetCarried BoundedRetry Released DoneResolved
